@@ -13,6 +13,7 @@ import (
 	"go/constant"
 	"go/token"
 	"go/types"
+	"math/big"
 	"sort"
 	"strings"
 
@@ -404,8 +405,122 @@ func (w *WEval) eval1(v ssa.Value) *Lay {
 			}
 			return &Lay{K: "zero", W: int(k.Int64())}
 		}
+		return w.evalFilledMake(mk)
 	}
 	return unk("unrecognised producer %T (%s)", v, v.Name())
+}
+
+// byteOf: one byte holding the low 8 bits of an integer value.
+func (w *WEval) byteOf(v ssa.Value) *Lay {
+	for {
+		if cv, ok := v.(*ssa.Convert); ok && isIntType(cv.X.Type()) {
+			v = cv.X
+			continue
+		}
+		break
+	}
+	return &Lay{K: "le", W: 1, S: w.term(v)}
+}
+
+// evalFilledMake: buf := make([]byte, L) with a run-time L, then filled in the same basic block by
+// copy(buf[off:], src) and buf[i] = b. The writes must tile [0, L) exactly (offsets and lengths
+// compared as linear forms over len(...) atoms), so no zero byte of the make survives.
+func (w *WEval) evalFilledMake(mk *ssa.MakeSlice) *Lay {
+	if mk.Referrers() == nil {
+		return unk("make of run-time length, never filled")
+	}
+	env := newTermEnv()
+	type seg struct {
+		off, n *TLin
+		l      *Lay
+	}
+	var segs []seg
+	one := newTLin()
+	one.Const.SetInt64(1)
+	copyInto := func(c *ssa.Call, off *TLin) bool {
+		b, ok := c.Call.Value.(*ssa.Builtin)
+		if !ok || b.Name() != "copy" || c.Block() != mk.Block() {
+			return false
+		}
+		src := c.Call.Args[1]
+		n := newTLin()
+		n.addAtom(atomName(&T{K: "len", Args: []*T{env.Term(src)}}), big.NewInt(1))
+		segs = append(segs, seg{off, n, w.eval(src)})
+		return true
+	}
+	for _, r := range *mk.Referrers() {
+		switch x := r.(type) {
+		case *ssa.DebugRef, *ssa.Store, *ssa.MakeInterface, *ssa.Return, *ssa.Phi:
+		case *ssa.IndexAddr:
+			if x.Referrers() == nil {
+				continue
+			}
+			for _, rr := range *x.Referrers() {
+				if st, ok := rr.(*ssa.Store); ok && st.Addr == ssa.Value(x) {
+					if st.Block() != mk.Block() {
+						return unk("buffer element written outside the block that makes it")
+					}
+					segs = append(segs, seg{linOf(env.Term(x.Index), nil), one, w.byteOf(st.Val)})
+				}
+			}
+		case *ssa.Slice:
+			if x.Referrers() == nil {
+				continue
+			}
+			for _, rr := range *x.Referrers() {
+				if c, ok := rr.(*ssa.Call); ok && len(c.Call.Args) > 0 && c.Call.Args[0] == ssa.Value(x) {
+					off := newTLin()
+					if x.Low != nil {
+						off = linOf(env.Term(x.Low), nil)
+					}
+					if !copyInto(c, off) {
+						if sc := c.Call.StaticCallee(); sc == nil || strings.HasPrefix(sc.Name(), "PutUint") || sc.String() == "io.ReadFull" {
+							return unk("buffer of run-time length filled by %s", calleeLabel(&c.Call))
+						}
+					}
+				}
+			}
+		case *ssa.Call:
+			if len(x.Call.Args) > 0 && x.Call.Args[0] == ssa.Value(mk) {
+				if _, isB := x.Call.Value.(*ssa.Builtin); isB {
+					if x.Call.Value.(*ssa.Builtin).Name() == "copy" && !copyInto(x, newTLin()) {
+						return unk("copy into the buffer outside the block that makes it")
+					}
+					continue
+				}
+			}
+			if sc := x.Call.StaticCallee(); sc == nil || strings.HasPrefix(sc.Name(), "PutUint") || sc.String() == "io.ReadFull" || strings.HasSuffix(sc.String(), "rand.Read") {
+				return unk("buffer of run-time length filled by %s", calleeLabel(&x.Call))
+			}
+		default:
+			return unk("buffer of run-time length used by %T", r)
+		}
+	}
+	if len(segs) == 0 {
+		return unk("make of run-time length %s, never filled", w.term(mk.Len))
+	}
+	total := linOf(env.Term(mk.Len), nil)
+	cur := newTLin()
+	var items []*Lay
+	used := make([]bool, len(segs))
+	for range segs {
+		found := false
+		for i, sg := range segs {
+			if !used[i] && sg.off.equal(cur) {
+				used[i], found = true, true
+				items = append(items, sg.l)
+				cur = cur.add(sg.n, 1)
+				break
+			}
+		}
+		if !found {
+			return unk("writes into the buffer do not tile it from offset %s", cur.String())
+		}
+	}
+	if !cur.equal(total) {
+		return unk("buffer of length %s filled only up to %s", total.String(), cur.String())
+	}
+	return seqOf(items...)
 }
 
 // globalBytes: the constant contents of a package-level []byte literal.
@@ -501,6 +616,7 @@ func (w *WEval) evalSlice(x *ssa.Slice) *Lay {
 	case "slicelit", "varargs":
 		// literal bytes
 		bs := make([]string, n)
+		varBytes := map[int]*Lay{}
 		if refs := al.Referrers(); refs != nil {
 			for _, r := range *refs {
 				ia, ok := r.(*ssa.IndexAddr)
@@ -516,7 +632,7 @@ func (w *WEval) evalSlice(x *ssa.Slice) *Lay {
 						if k, ok := constInt(st.Val); ok {
 							bs[idx.Int64()] = fmt.Sprintf("%02x", k.Int64()&0xff)
 						} else {
-							return unk("literal with non-constant byte %s", w.term(st.Val))
+							varBytes[int(idx.Int64())] = w.byteOf(st.Val)
 						}
 					}
 				}
@@ -526,6 +642,26 @@ func (w *WEval) evalSlice(x *ssa.Slice) *Lay {
 			if bs[i] == "" {
 				bs[i] = "00"
 			}
+		}
+		if len(varBytes) > 0 {
+			// constant runs interleaved with single run-time bytes
+			var items []*Lay
+			run := ""
+			for i := range bs {
+				if vb, ok := varBytes[i]; ok {
+					if run != "" {
+						items = append(items, &Lay{K: "const", S: run})
+						run = ""
+					}
+					items = append(items, vb)
+					continue
+				}
+				run += bs[i]
+			}
+			if run != "" {
+				items = append(items, &Lay{K: "const", S: run})
+			}
+			return seqOf(items...)
 		}
 		return &Lay{K: "const", S: strings.Join(bs, "")}
 	}
